@@ -65,6 +65,12 @@ fn program(seed: u64) -> Vec<Vec<u8>> {
         let m = bytes(splitmix(&mut s), (splitmix(&mut s) % 40) as usize);
         out.push(blake3::derive_key(c, &m).to_vec());
     }
+    // one-shot calls over several chunks (the subtree code with its scratch arrays)
+    for _ in 0..2 {
+        let m = bytes(splitmix(&mut s), 2049 + (splitmix(&mut s) % 1100) as usize);
+        let key: [u8; 32] = bytes(splitmix(&mut s), 32).try_into().unwrap();
+        out.push(blake3::keyed_hash(&key, &m).as_bytes().to_vec());
+    }
     for _ in 0..steps {
         match splitmix(&mut s) % 6 {
             0 | 1 => {
@@ -99,7 +105,10 @@ fn program(seed: u64) -> Vec<Vec<u8>> {
                 // update_reader: the copy loop's staging buffer must be the thread's own
                 let m = bytes(splitmix(&mut s), 300 + (splitmix(&mut s) % 900) as usize);
                 let mut h = blake3::Hasher::new();
+                #[cfg(feature = "std")]
                 h.update_reader(&m[..]).unwrap();
+                #[cfg(not(feature = "std"))]
+                h.update(&m);
                 let cv = blake3::Hasher::new().update(&m).finalize_non_root();
                 out.push(h.finalize().as_bytes().to_vec());
                 out.push(cv.to_vec());
@@ -111,6 +120,7 @@ fn program(seed: u64) -> Vec<Vec<u8>> {
 
 /// C08 (Rust): both halves of every split really run concurrently (right half on its own thread);
 /// Miri's scheduler decides the interleaving, its race detector the "no data race" clause.
+#[cfg(feature = "std")]
 fn join_hook(left: blake3::verif::JoinHalf<'_>, right: blake3::verif::JoinHalf<'_>) {
     std::thread::scope(|s| {
         s.spawn(move || right());
@@ -118,6 +128,16 @@ fn join_hook(left: blake3::verif::JoinHalf<'_>, right: blake3::verif::JoinHalf<'
     });
 }
 
+#[cfg(not(feature = "std"))]
+fn join_mode(_wseed: u64) {
+    panic!("join mode needs the hooks (std build)");
+}
+#[cfg(not(feature = "std"))]
+fn intrinsics_mode(_wseed: u64) {
+    panic!("intrinsics mode needs the hooks (std build)");
+}
+
+#[cfg(feature = "std")]
 fn join_mode(wseed: u64) {
     blake3::verif::set_join_hook(Some(join_hook));
     let mut s = wseed;
@@ -217,6 +237,7 @@ fn clones_mode(wseed: u64, threads: usize) {
 /// C07 (unsafe Rust intrinsics): the pure build's SSE2 / SSE4.1 / AVX2 kernels interpreted by Miri, which checks
 /// every vector load and store for bounds, alignment requirements and initialisation. The level is forced through
 /// the detect() hook (it sits before the cfg(miri) short-circuit). Results must also equal the portable level.
+#[cfg(feature = "std")]
 fn intrinsics_mode(wseed: u64) {
     use blake3::platform::Platform;
     let mut s = wseed;
